@@ -356,11 +356,45 @@ func c28Mutations(r *verifx.Rng, base *verifx.Wire, spec *verifx.SigSpec) []c28M
 	})
 
 	// ---- body
+	if !verifx.IsStreaming(spec.Mode) && len(base.HandlerBody()) == 0 {
+		// a body smuggled into a bodyless request with Transfer-Encoding: chunked: there is no
+		// (signed) Content-Length to contradict
+		add("body-add-te-chunked", func(w *verifx.Wire) bool {
+			if _, v := w.Get("Content-Length"); v != "" && v != "0" {
+				return false
+			}
+			w.Del("Content-Length")
+			w.Headers = append(w.Headers, [2]string{"Transfer-Encoding", "chunked"})
+			w.Decoded = []byte("injected body")
+			w.Body = verifx.TEFrame(w.Decoded)
+			return true
+		})
+	}
 	if len(base.Body) > 0 {
-		if !verifx.IsStreaming(spec.Mode) {
+		if base.Decoded != nil {
+			// base sent with Transfer-Encoding: chunked: mutate what the handler reads, re-frame
+			add("body-flip", func(w *verifx.Wire) bool {
+				w.Decoded[r.Intn(len(w.Decoded))] ^= 0x01
+				w.Body = verifx.TEFrame(w.Decoded)
+				return true
+			})
+			add("body-append", func(w *verifx.Wire) bool { w.Decoded = append(w.Decoded, 'x'); w.Body = verifx.TEFrame(w.Decoded); return true })
+			add("body-truncate", func(w *verifx.Wire) bool {
+				w.Decoded = w.Decoded[:len(w.Decoded)-1]
+				w.Body = verifx.TEFrame(w.Decoded)
+				return true
+			})
+		} else if !verifx.IsStreaming(spec.Mode) {
 			add("body-flip", func(w *verifx.Wire) bool { w.Body[r.Intn(len(w.Body))] ^= 0x01; return true })
 			add("body-append", func(w *verifx.Wire) bool { w.Body = append(w.Body, 'x'); w.FixContentLength(); return true })
 			add("body-truncate", func(w *verifx.Wire) bool { w.Body = w.Body[:len(w.Body)-1]; w.FixContentLength(); return true })
+			add("body-te-chunked-same", func(w *verifx.Wire) bool { // same payload, other transfer coding: Content-Length (signed when > 0) disappears
+				w.Decoded = append([]byte{}, w.Body...)
+				w.Del("Content-Length")
+				w.Headers = append(w.Headers, [2]string{"Transfer-Encoding", "chunked"})
+				w.Body = verifx.TEFrame(w.Decoded)
+				return true
+			})
 		} else {
 			add("chunk-data-flip", func(w *verifx.Wire) bool {
 				// first data byte of the first chunk: right after the first CRLF
